@@ -4,7 +4,7 @@ Model (JSON-serialisable)
     member := {"k": "func",  "n": name, "params": [[pname, ann|None, has_default]], "ret": ann|None, "doc": bool,
                             "ov": 0|2|3 (stubs side only), "impl": bool (stubs side: a plain definition follows the overloads)}
             | {"k": "attr",  "n": name, "ann": ann|None, "val": bool, "doc": bool}
-            | {"k": "class", "n": name, "doc": bool, "members": [member, ...]}
+            | {"k": "class", "n": name, "doc": bool, "members": [member, ...], "base": name of a sibling class | None (optional)}
             | {"k": "alias", "n": name, "t": "ext" | "int" | "typing"}
     module := {"doc": bool, "members": [member, ...]}            member names are unique inside a container
     pair   := {"R": module, "S": module}                         R = runtime (.py), S = stubs (.pyi)
@@ -115,6 +115,23 @@ def pairs(top: str = "p", internal_aliases: bool = True):
                         other = [x for x in ("func", "attr", "class") if x != k]
                         rs.append(draw(single(n, "R", depth, kinds=(k,))))
                         ss.append(draw(single(n, "S", depth, kinds=tuple(other))))
+        free = [n for n in POOL if n not in names]
+        if depth <= 1 and len(free) >= 4 and draw(st.integers(0, 2)) == 0:
+            # an inheritance family: Child(Base) where the child does not override one of the base's methods while
+            # the stubs of the child declare overloads / annotations for exactly that inherited-only method
+            bn, cn, m1, m2 = draw(st.permutations(free))[:4]
+            r_base = {"k": "class", "n": bn, "doc": draw(st.booleans()), "members": [draw(func(m1, "R")), draw(func(m2, "R"))]}
+            r_child = {"k": "class", "n": cn, "base": bn, "doc": draw(st.booleans()), "members": [draw(func(m2, "R"))] if draw(st.booleans()) else []}
+            s_inherited = draw(func(m1, "S"))
+            s_inherited["ov"] = draw(st.sampled_from([2, 2, 3]))
+            s_inherited["impl"] = draw(st.sampled_from([False, False, True]))
+            s_child = {"k": "class", "n": cn, "base": bn if draw(st.booleans()) else None, "doc": draw(st.booleans()), "members": [s_inherited]}
+            if draw(st.booleans()):
+                s_child["members"].append(draw(func(m2, "S")))
+            rs += [r_base, r_child]
+            ss.append(s_child)
+            if draw(st.booleans()):
+                ss.append({"k": "class", "n": bn, "doc": draw(st.booleans()), "members": [draw(func(m1, "S"))] if draw(st.booleans()) else []})
         if draw(st.booleans()):
             ss.reverse()  # the order of definitions inside the stub file is unrelated to the runtime file's
         return rs, ss
@@ -130,17 +147,21 @@ def pairs(top: str = "p", internal_aliases: bool = True):
 
 def normalise(pair: dict) -> dict:
     """Domain restriction (see ASSUMPTIONS of the check): an overload group of the stubs without a plain definition
-    is only kept where the runtime container has a member of that name; elsewhere the stub function gets its plain
+    is only kept where the runtime container has a member of that name, or inherits one from a base class of the same
+    container (then nothing is expected for the child and the base's method must stay untouched); elsewhere the stub function gets its plain
     definition (Griffe's stub module has no member for a bare overload group, so it is not a 'stub-only member')."""
 
-    def rec(r_members, s_members):
+    def rec(r_members, s_members, inherited=frozenset()):
         r_by = {m["n"]: m for m in r_members or []}
         for m in s_members:
-            if m["k"] == "func" and m.get("ov") and not m.get("impl", True) and m["n"] not in r_by:
+            if m["k"] == "func" and m.get("ov") and not m.get("impl", True) and m["n"] not in r_by and m["n"] not in inherited:
                 m["impl"] = True
             if m["k"] == "class":
                 rm = r_by.get(m["n"])
-                rec(rm["members"] if rm is not None and rm["k"] == "class" else None, m["members"])
+                is_class = rm is not None and rm["k"] == "class"
+                base = r_by.get(rm.get("base")) if is_class and rm.get("base") else None
+                names = frozenset(x["n"] for x in base["members"]) if base is not None and base["k"] == "class" else frozenset()
+                rec(rm["members"] if is_class else None, m["members"], names)
 
     rec(pair["R"]["members"], pair["S"]["members"])
     return pair
@@ -227,7 +248,7 @@ def _render_members(members, side, top, qual, ind, lines) -> None:
                 else:
                     lines.append(f"{ind}def {m['n']}({ps}){ret}: ...")
         else:
-            lines.append(f"{ind}class {m['n']}:")
+            lines.append(f"{ind}class {m['n']}({m['base']}):" if m.get("base") else f"{ind}class {m['n']}:")
             if m["doc"]:
                 lines.append(f'{ind}    """{side}:{q}"""')
             if m["members"]:
@@ -268,7 +289,7 @@ def _own(m: dict, side: str, qual: str, runtime: bool | None) -> dict:
             "ov": ovs or Any(None, []),
             "runtime": runtime,
         }
-    rec = {"kind": "class", "doc": f"{side}:{q}" if m["doc"] else None, "runtime": runtime, "ov": "dict", "members": {}}
+    rec = {"kind": "class", "doc": f"{side}:{q}" if m["doc"] else None, "runtime": runtime, "ov": "dict", "bases": [m["base"]] if m.get("base") else [], "members": {}}
     for sub in m["members"]:
         if sub["k"] == "func" and side == "S" and not sub.get("impl", True):
             continue  # bare overload group: no member in the stubs (cannot occur after normalise() in S-only classes)
@@ -306,7 +327,7 @@ def _merge_container(r_members: list, s_members: list, qual: str) -> dict:
                 rec["ov"] = overload_signatures(s)
             out[r["n"]] = rec
         else:
-            rec = {"kind": "class", "doc": f"R:{q}" if r["doc"] else (f"S:{q}" if s["doc"] else None), "runtime": True, "ov": "dict"}
+            rec = {"kind": "class", "doc": f"R:{q}" if r["doc"] else (f"S:{q}" if s["doc"] else None), "runtime": True, "ov": "dict", "bases": [r["base"]] if r.get("base") else []}
             rec["members"] = _merge_container(r["members"], s["members"], q + ".")
             out[r["n"]] = rec
     for s in s_members:
@@ -364,6 +385,7 @@ def observe(module, skip: tuple = ()) -> dict:
                 "doc": doc(o),
                 "runtime": o.runtime,
                 "ov": "dict" if isinstance(o.overloads, dict) else repr(type(o.overloads).__name__),
+                "bases": [text(b) for b in o.bases],
                 "members": {n: member(x) for n, x in o.members.items()},
             }
         return {"kind": k}
@@ -418,7 +440,7 @@ def compare(exp: dict, got: dict) -> list[tuple[str, str, str]]:
                         out.append(("parameter-default", path, f"{path}({pe[0]}): default {pg[2]!r}, expected {pe[2]!r}"))
                 continue
             if not ok(e[field], g.get(field)):
-                label = {"ret": "return-annotation", "ann": "attribute-annotation", "doc": "docstring", "ov": f"overloads:{e['kind']}", "runtime": f"runtime-flag:{e['runtime']}", "resolved": "alias-resolved", "value": "value", "target": "alias-target"}[field]
+                label = {"ret": "return-annotation", "ann": "attribute-annotation", "doc": "docstring", "ov": f"overloads:{e['kind']}", "runtime": f"runtime-flag:{e['runtime']}", "resolved": "alias-resolved", "value": "value", "target": "alias-target", "bases": "bases"}[field]
                 out.append((label, path, f"{path}: {field} is {g.get(field)!r}, expected {e[field]!r}"))
         if "members" in e:
             members(e["members"], g.get("members", {}), path + ".", "")
@@ -443,6 +465,12 @@ def labels(pair: dict) -> set[str]:
                 out.add("runtime-only")
                 continue
             n_overlap += 1
+            if r["k"] == "class" and r.get("base") and s["k"] == "class":
+                base = r_by.get(r["base"])
+                own = {m["n"] for m in r["members"]}
+                for sm_ in s["members"]:
+                    if base is not None and sm_["k"] == "func" and sm_["n"] not in own and any(b["n"] == sm_["n"] for b in base["members"]):
+                        out.add("stubs-for-inherited-only-method:" + ("overloads-with-definition" if sm_.get("impl", True) else "bare-overloads") + (f":depth{depth}" if depth else ""))
             if r["k"] == "alias":
                 out.add(f"alias-in-runtime:{r['t']}")
             if s["k"] == "alias":
